@@ -50,6 +50,9 @@ SEED_DOCS = [
     ("seed:block-scalar-short-blank-lines", 'groups:\n- name: g\n  rules:\n  - alert: A\n    expr: |\n      up\n \n      == 0\n    annotations:\n      summary: |\n        line one\n  \n        line two\n\n'),
     ("seed:values-file-trailing-quoted-scalar", '# values file\nrules:\n- alert: TargetDown\n  expr: up\ndescription: "line one\\nline two\\nline three"\n'),
     ("seed:configmap-yaml-in-yaml", 'kind: ConfigMap\ndata:\n  rules.yml: |\n    groups:\n    - name: g\n      rules:\n      - alert: A\n        expr: up == 0\n        for: 1x\n  other: "a\\n\\nb"'),
+    ("seed:paren-string-arguments", 'groups:\n- name: g\n  rules:\n  - record: a\n    expr: count_values(("x"), up)\n  - record: b\n    expr: label_join(up, ("foo"), "", "a")\n  - record: c\n    expr: label_replace(up, ("foo"), "x", "a", "(.*)")\n'),
+    ("seed:group-label-template-above-rules", 'groups:\n- name: g\n  labels:\n    tier: "{{ $value }}"\n    team: "{{ $nope }}"\n  rules:\n  - alert: A\n    expr: up == 0\n  - record: foo\n    expr: up\n'),
+    ("seed:group-label-template-below-rules", 'groups:\n- name: g\n  rules:\n  - alert: A\n    expr: up == 0\n  labels:\n    tier: "{{ $value }}"\n    team: "{{ $nope }}"\n'),
     ("seed:block-scalars", 'groups:\n- name: g\n  rules:\n  - alert: A\n    expr: |\n      up\n        == 0\n    annotations:\n      summary: >-\n        {{ $labels.job }}\n        is down\n'),
 ]
 
@@ -58,6 +61,8 @@ BIN_ONLY_SEEDS = [
     ("binseed:template-alias-cycle", 'groups:\n- name: g\n  rules:\n  - alert: A\n    expr: up == 0\n    annotations:\n      summary: "{{ $a := .Labels }}{{ $b := $a }}{{ $a := $b }}{{ $a.job }}"\n'),
     ("binseed:require-owner-invalid-rule", 'groups:\n- name: g\n  rules:\n  - record: foo\n    expr: up\n    for: 5m\n'),
     ("binseed:require-owner-valid-rules", 'groups:\n- name: g\n  rules:\n  - record: foo\n    expr: up\n  - alert: A\n    expr: up == 0\n'),
+    ("binseed:recursive-anchor", 'x: &a\n  - *a\n'),
+    ("binseed:recursive-anchor-in-rules", 'groups:\n- name: g\n  rules: &r\n  - alert: A\n    expr: up == 0\n    labels: &l\n      team: *l\n  - *r\n'),
     ("binseed:owner-comments", '# pint file/owner team-a\ngroups:\n- name: g\n  rules:\n  # pint rule/owner team-b\n  - record: foo\n    expr: up\n  - alert: "quote\'s"\n    expr: up == 0\n    for: 1x\n'),
 ]
 
